@@ -1286,7 +1286,7 @@ def engine_decides_rule(F, rep, rid):
     for what, f, region, ev in regions:
         def is_event(x, ev=ev):
             return x["k"] == "MethodCall" and ((x.get("callee") or "").endswith(ev) or (x.get("resolved") or "").endswith(ev.rsplit("::", 1)[-1]) and "SemTypeOps" in (x.get("resolved") or x.get("callee") or ""))
-        hits = unpreceded_exits(F, f.crate, region, is_event, lambda e: _only_err(F, f.crate, e))
+        hits = unpreceded_exits(F, f.crate, region, is_event, lambda e: _only_err(F, f.crate, e), owner=f.id)
         rep.ob(rid, "%s/%s" % (what.replace(" ", "-"), f.id.rsplit("::", 1)[-1]), not hits,
                "the handling of %s in %s returns a value (line %s) on a path that has not consulted the semantic engine (%s): a syntactic shortcut must re-implement assignability for every pair of kinds, and any kind it does not know is silently treated as `not assignable` / `not removed`" % (
                    what, f.id, ", ".join(str(h.get("line")) for h in hits[:4]), ev),
